@@ -36,6 +36,10 @@ def x_obligations(tier):
         for cfg in ("local", "server"):
             o.append(Obl(f"C05-rt[shipped,{cfg},{pre!r}+{n}+{suf!r}]", M, "roundtrip", env={"VF_CONF": "shipped", "VF_PRE": pre, "VF_N": str(n), "VF_SUF": suf, "VF_CONFIG": cfg}, timeout=T, path_timeout=300, family="C05-shipped",
                          bound=f"shipped configuration {cfg}: Sid({pre!r}+c+{suf!r}), c one symbolic character"))
+    # path() of two Sids sharing their string but not their type, one after the other (C13's call alphabet, caches on)
+    for i in (32, 33):
+        o.append(Obl(f"C05-history[after call#{i}]", "xhair.obl.c13", "pair", env={"VF_IDX": str(i), "VF_FIRST": "local"}, timeout=T, family="C05-history",
+                     bound=f"history (call #{i}: path() of a same-string Sid of another type, call j) for every j of the call alphabet of C13, caches on"))
     o.append(Obl("C05-reach", M, "reach", env={"VF_N": "1", "VF_PRE": "h/a/", "VF_SUF": "/v1/m"}, timeout=150, expect="refute", family="C05-twin"))
     return o
 
